@@ -140,10 +140,15 @@ func (r *c17mRun) liveCount() int {
 	return n
 }
 
-// endSock resets one connection (already taken out of r.live) and waits until the broker has
-// torn it down: its handleConn goroutine, which runs readLoop's deferred cleanup, is gone.
-func (r *c17mRun) endSock(sock net.Conn) string {
-	c17mKill(sock)
+// endSocks resets connections (already taken out of r.live) and waits until the broker has
+// torn them down: their handleConn goroutines, which run readLoop's deferred cleanup, are gone.
+func (r *c17mRun) endSocks(socks []net.Conn) string {
+	if len(socks) == 0 {
+		return ""
+	}
+	for _, s := range socks {
+		c17mKill(s)
+	}
 	deadline := time.Now().Add(3 * time.Second)
 	for i := 0; ; i++ {
 		if c17mHandlers() <= r.liveCount() {
@@ -226,9 +231,7 @@ func c17mExec(raw json.RawMessage) interface{} {
 				r.live[op.Cid] = socks[len(socks)-1:]
 			}
 			r.mu.Unlock()
-			for _, s := range old {
-				sn.Err += r.endSock(s)
-			}
+			sn.Err += r.endSocks(old)
 		case "drop":
 			r.mu.Lock()
 			socks := r.live[op.Cid]
@@ -237,9 +240,7 @@ func c17mExec(raw json.RawMessage) interface{} {
 			if len(socks) == 0 {
 				sn.Skipped = true
 			}
-			for _, s := range socks {
-				sn.Err += r.endSock(s)
-			}
+			sn.Err += r.endSocks(socks)
 		case "burst":
 			var wg sync.WaitGroup
 			codes := make([]int, len(op.Cids))
@@ -282,9 +283,7 @@ func c17mExec(raw json.RawMessage) interface{} {
 				r.mu.Lock()
 				r.live[cid] = keep
 				r.mu.Unlock()
-				for _, s := range end {
-					sn.Err += r.endSock(s)
-				}
+				sn.Err += r.endSocks(end)
 			}
 		default:
 			sn.Skipped = true
